@@ -55,8 +55,11 @@ Definition distance_ip_version (obs sig : ip_version) : option N :=
 Definition distance_ttl (obs sig : ttl) : option N :=
   match obs, sig with
   | TtlValue a, TtlValue b => high_or tq_low (a =? b)
-  | TtlDistance a1 a2, TtlDistance b1 b2 => high_or tq_low ((a1 =? b1) && (a2 =? b2))
+  | TtlDistance a1 a2, TtlDistance b1 b2 => high_or tq_low (sat_add8 a1 a2 =? sat_add8 b1 b2)
   | TtlDistance a1 a2, TtlValue b1 => high_or tq_low (sat_add8 a1 a2 =? b1)
+  | TtlDistance a1 a2, TtlGuess b1 => high_or tq_low (sat_add8 a1 a2 =? b1)
+  (* `ttl-` signature: any observed TTL that does not exceed it, the rest is rejected (p0f's bad_ttl rule) *)
+  | TtlDistance a1 _, TtlBad b | TtlValue a1, TtlBad b => if a1 <=? b then Some tq_high else None
   | TtlGuess a, TtlGuess b => high_or tq_low (a =? b)
   | TtlBad a, TtlBad b => high_or tq_low (a =? b)
   | TtlGuess a, TtlValue b => high_or tq_low (a =? b)
